@@ -86,6 +86,7 @@ DRIVER = r'''
   "thread-after" (do (sb) (ev/thread (fn [&] (run-all "thread-after"))))
   "thread-detached" (do (sb) (def done (ev/thread-chan 1)) (ev/thread (fn [&] (run-all "thread-detached") (ev/give done 1)) nil :n) (ev/take done))
   "thread-self" (ev/thread (fn [&] (sb) (run-all "thread-self")))
+  "thread-nested" (do (sb) (ev/thread (fn [&] (ev/thread (fn [&] (run-all "thread-nested"))))))
   "resandbox" (do (sb) (protect (sandbox)) (protect (sandbox :sandbox)) (protect (sandbox)) (run-all "resandbox")))
 (eprint "\nDRIVER-DONE")
 (os/exit 0)
@@ -184,7 +185,7 @@ def run(ctx):
     rng = ctx.rng
     for _ in range(5 if quick else 120):
         subsets.append(sorted(rng.sample(names, rng.randrange(2, 7))))
-    allmodes = ["same", "thread-after", "thread-detached", "thread-self", "resandbox"]
+    allmodes = ["same", "thread-after", "thread-detached", "thread-self", "thread-nested", "resandbox"]
     jobs = []
     for sub in subsets:
         if not sub:
@@ -263,7 +264,7 @@ def run(ctx):
                 ctx.violation("forbidden-os-call:%s:%s:%s" % (kind, cur[0], mode),
                               "with sandbox %s (%s): (%s ...) with argument shape #%d reached libc %s(%s) although %s is disabled in that thread (flags %#x)" %
                               (sub, mode, cur[0], cur[1], call, arg[-60:], kind, fl), files)
-            elif mode in ("thread-after", "thread-detached", "same", "resandbox", "thread-self") and (bits & want) and not (fl & bits):
+            elif (bits & want) and not (fl & bits):
                 ctx.violation("sandbox-not-in-force:%s:%s" % (kind, mode), "after (sandbox %s) in mode %s, (%s ...) shape #%d made %s(%s) in a thread whose flags are %#x: the "
                               "capability is not disabled there" % (sub, mode, cur[0], cur[1], call, arg[-60:], fl), files)
         ctx.count("sweeps:" + mode)
